@@ -1,0 +1,50 @@
+//go:build verif
+
+package engine
+
+//@ ---------------------------------------------------------------- small helpers that used to be trusted, now verified
+
+//@ -- Delay: the promise of a choice point - exactly the given alternatives, in the given order, nothing decided yet
+//@ func Delay
+//@   property C03 C13 C16
+//@   modifies nothing
+//@   ensures[fresh] result != nil && fresh(result)
+//@   ensures[an-undecided-promise-holding-exactly-the-given-alternatives-in-order] result.delayed == k && result.err == nil && !result.ok && result.cutParent == nil && !result.repeat && result.recover == nil
+
+//@ -- checkPositiveInteger: the argument check of sub_atom/5's positions
+//@ func checkPositiveInteger
+//@   property C16
+//@   modifies nothing
+//@   let r = resolve(env, n)
+//@   bind de = domainError#1
+//@   at-call (*Env).Resolve requires[the-argument-is-read-under-the-caller-s-bindings] a0 == env && a1 == n
+//@   at-call domainError requires[a-negative-position-is-a-domain-error-not-less-than-zero-of-the-argument] a0 == validDomainNotLessThanZero && a1 == n && a2 == env && r is Integer && (r as Integer) < 0
+//@   at-call typeError requires[anything-else-is-a-type-error-integer-of-the-argument] a0 == validTypeInteger && a1 == n && a2 == env && !(r is Variable) && !(r is Integer)
+//@   ensures[an-unbound-or-non-negative-integer-passes] r is Variable || (r is Integer && (r as Integer) >= 0) ==> result == nil
+//@   ensures[a-negative-integer-is-refused] r is Integer && (r as Integer) < 0 ==> called(de) && result != nil
+//@   ensures[anything-else-is-refused-with-a-type-error] !(r is Variable) && !(r is Integer) ==> result != nil && isTypeErr(result, validTypeInteger, n)
+
+//@ -- stream: a stream term or an alias of this interpreter's stream table
+//@ func stream
+//@   property C19
+//@   modifies nothing
+//@   let r = resolve(env, streamOrAlias)
+//@   bind s, found = (*streams).lookup#1
+//@   at-call (*Env).Resolve requires[the-argument-is-read-under-the-caller-s-bindings] a0 == env && a1 == streamOrAlias
+//@   at-call (*streams).lookup requires[an-alias-is-looked-up-in-this-interpreter-s-table] a0 == &vm.streams && r is Atom && a1 == (r as Atom)
+//@   at-call InstantiationError requires[only-an-unbound-argument-is-an-instantiation-error] r is Variable
+//@   at-call existenceError requires[an-unknown-alias-is-an-existence-error-stream] a0 == objectTypeStream && a1 == streamOrAlias && a2 == env && called(found) && !found
+//@   at-call domainError requires[anything-else-is-a-domain-error-stream-or-alias] a0 == validDomainStreamOrAlias && a1 == streamOrAlias && a2 == env && !(r is Variable) && !(r is Atom) && !(r is *Stream)
+//@   ensures[a-stream-term-is-itself] r is *Stream ==> result0 == (r as *Stream) && result1 == nil
+//@   ensures[a-known-alias-is-the-stream-it-names] r is Atom && called(found) && found ==> result0 == s && result1 == nil
+//@   ensures[everything-else-is-an-error-and-no-stream] !(r is *Stream) && !(r is Atom && called(found) && found) ==> result0 == nil && result1 != nil
+//@   ensures err == nil ==> result != nil
+
+//@ -- appendUniqNewAtom: the names of an op/3 call, each once, in the order given
+//@ func appendUniqNewAtom
+//@   property C18
+//@   modifies nothing
+//@   loop 1 invariant[nothing-seen-so-far-equals-the-new-name] -1 <= $i && $i < len(slice) && forall j int :: 0 <= j && j <= $i ==> slice[j] != elem
+//@   ensures[a-name-already-there-is-not-added-again] (exists j int :: 0 <= j && j < len(slice) && slice[j] == elem) ==> result == slice
+//@   ensures[a-new-name-is-added-at-the-end] (forall j int :: 0 <= j && j < len(slice) ==> slice[j] != elem) ==> len(result) == len(slice) + 1 && result[len(slice)] == elem &&
+//@       forall j int :: 0 <= j && j < len(slice) ==> result[j] == slice[j]
